@@ -33,10 +33,12 @@ def cw_ops(rng, n):
                 for room in ((0,) if kind in ('buf', 'plain') else (0, 1, total // 2, 32768, 32769, total, total + 5)):
                     ops.append(f'cw.seq {kind} {room} r{total}/{chunk}')
                     ops.append(f'cw.seq {kind} {room} w7,r{total}/{chunk},w3,r5/2')
+                    ops.append(f'cw.seq {kind} {room} R{total}/{chunk}')
+                    ops.append(f'cw.seq {kind} {room} w7,R{total}/{chunk},w3,R5/2')
     for _ in range(n):
         kind = rng.choice(['buf', 'plain', 'short', 'hard'])
-        seq = ','.join(rng.choice([f'w{rng.choice(sizes)}', f'r{rng.choice(sizes)}/{rng.choice([1, 7, 4096, 32768, 32769, 100000])}']) for _ in range(rng.randrange(1, 6)))
-        seq = ','.join(o for o in seq.split(',') if not (o.startswith('r') and int(o[1:].split('/')[0]) > 1000 and o.endswith('/1')))
+        seq = ','.join(rng.choice([f'w{rng.choice(sizes)}', f'{rng.choice("rR")}{rng.choice(sizes)}/{rng.choice([1, 7, 4096, 32768, 32769, 100000])}']) for _ in range(rng.randrange(1, 6)))
+        seq = ','.join(o for o in seq.split(',') if not (o[0] in 'rR' and int(o[1:].split('/')[0]) > 1000 and o.endswith('/1')))
         if seq:
             ops.append(f'cw.seq {kind} {rng.choice([0, 10, 40000, 70000, 200000])} {seq}')
     return list(dict.fromkeys(ops))
